@@ -189,3 +189,36 @@ fn k_varint_put_too_small() {
     Err(_) => assert!(b.len() == 0),
   }
 }
+
+// ---- C19: checksum covers exactly allocated_memory()[reserved..] -----------------------------------------------------
+/// a checksummer whose digest is sensitive to dropped, duplicated or re-ordered chunks without looking at byte values
+/// in a loop: digest = sum over chunks of (start position + 1) * chunk length, plus the total length in the high bits
+pub(crate) struct PosSum;
+pub(crate) struct PosSumState { fed: u64, acc: u64 }
+impl crate::checksum::BuildChecksumer for PosSum {
+  type Checksumer = PosSumState;
+  fn build_checksumer(&self) -> PosSumState { PosSumState { fed: 0, acc: 0 } }
+  fn checksum_one(&self, src: &[u8]) -> u64 { ((src.len() as u64) << 32) ^ (src.len() as u64) }
+}
+impl crate::checksum::Checksumer for PosSumState {
+  fn update(&mut self, buf: &[u8]) { self.acc = self.acc.wrapping_add((self.fed + 1).wrapping_mul(buf.len() as u64)); self.fed += buf.len() as u64; }
+  fn reset(&mut self) { self.fed = 0; self.acc = 0; }
+  fn digest(&self) -> u64 { (self.fed << 32) ^ self.fed }
+}
+/// bounded(capacity 3 pages + 64, cursor symbolic over {k*page-1, k*page, k*page+1 : k = 1, 2} + reserved in {0, 1, 7}): C19
+#[kani::proof]
+#[kani::unwind(6)]
+fn k_checksum_covers_allocated() {
+  let reserved: u32 = match kani::any::<u8>() % 3 { 0 => 0, 1 => 1, _ => 7 };
+  let a = Options::new().with_capacity(3 * 4096 + 64).with_reserved(reserved).with_freelist(Freelist::None).alloc::<Arena>().unwrap();
+  let page = a.page_size() as u32;
+  kani::assume(page == 4096);
+  let k: u32 = if kani::any() { 1 } else { 2 };
+  let d: u32 = kani::any();
+  kani::assume(d <= 2);
+  let target = k * page + reserved + d - 1;                 // allocated() - reserved in {k*page - 1, k*page, k*page + 1}
+  unsafe { a.rewind(ArenaPosition::Start(target)) };
+  assert!(a.allocated() as u32 == target);
+  let want = (target - reserved) as u64;
+  assert!(a.checksum(&PosSum) == (want << 32) ^ want);
+}
